@@ -394,6 +394,27 @@ func calls(p *pkg, fd *ast.FuncDecl) []string {
 	return res
 }
 
+// events lists, in source order, the channel receives ("recv:<expr>") and
+// calls ("call:<fun>") of fd.
+func events(p *pkg, fd *ast.FuncDecl) []string {
+	var res []string
+	if fd == nil {
+		return res
+	}
+	ast.Inspect(fd.Body, func(n ast.Node) bool {
+		switch x := n.(type) {
+		case *ast.UnaryExpr:
+			if x.Op == token.ARROW {
+				res = append(res, "recv:"+exprStr(p.fset, x.X))
+			}
+		case *ast.CallExpr:
+			res = append(res, "call:"+exprStr(p.fset, x.Fun))
+		}
+		return true
+	})
+	return res
+}
+
 // readCalls reports for each call on the reader `r` in fd whether it is
 // io.ReadFull(r, ..) ("full") or r.Read(..) ("bare").
 func readCalls(p *pkg, fd *ast.FuncDecl) []string {
@@ -808,6 +829,43 @@ func main() {
 		leanStrList(readCalls(m, m.anyFunc("Machine", "ReadHeader"))))
 	o.f("def reads_ReadBody : List String := %s\n",
 		leanStrList(readCalls(m, m.anyFunc("Machine", "ReadBody"))))
+
+	// --- session exclusivity: Accept / Dial wait for the previous connection
+	o.f("def events_Accept : List String := %s\n", leanStrList(events(m, m.anyFunc("Server", "Accept"))))
+	o.f("def events_Dial : List String := %s\n", leanStrList(events(m, m.anyFunc("Client", "Dial"))))
+	o.f("def guarded_AcceptWait : List Bool := %s\n", leanBoolList(guardedCalls(m,
+		m.anyFunc("Server", "Accept"), "s.mailboxConn.Done", "s.mailboxConn != nil")))
+	o.f("def guarded_DialWait : List Bool := %s\n", leanBoolList(guardedCalls(m,
+		m.anyFunc("Client", "Dial"), "c.mailboxConn.Done", "c.mailboxConn != nil")))
+	o.f("def events_ServerConnClose : List String := %s\n", leanStrList(events(m, m.anyFunc("ServerConn", "Close"))))
+	o.f("def events_ClientConnClose : List String := %s\n", leanStrList(events(m, m.anyFunc("ClientConn", "Close"))))
+
+	// --- stack composition: how the layers are plugged together
+	o.f("def events_kitRead : List String := %s\n", leanStrList(events(m, m.anyFunc("connKit", "Read"))))
+	o.f("def events_kitWrite : List String := %s\n", leanStrList(events(m, m.anyFunc("connKit", "Write"))))
+	o.f("def events_cliRecvCtl : List String := %s\n", leanStrList(events(m, m.anyFunc("ClientConn", "ReceiveControlMsg"))))
+	o.f("def events_cliSendCtl : List String := %s\n", leanStrList(events(m, m.anyFunc("ClientConn", "SendControlMsg"))))
+	o.f("def events_srvRecvCtl : List String := %s\n", leanStrList(events(m, m.anyFunc("ServerConn", "ReceiveControlMsg"))))
+	o.f("def events_srvSendCtl : List String := %s\n", leanStrList(events(m, m.anyFunc("ServerConn", "SendControlMsg"))))
+	{
+		// every gbn option the mailbox package passes to the GBN constructors
+		seen := map[string]bool{}
+		var opts []string
+		for _, f := range m.files {
+			ast.Inspect(f, func(n ast.Node) bool {
+				if ce, ok := n.(*ast.CallExpr); ok {
+					fn := exprStr(m.fset, ce.Fun)
+					if strings.HasPrefix(fn, "gbn.With") && !seen[fn] {
+						seen[fn] = true
+						opts = append(opts, fn)
+					}
+				}
+				return true
+			})
+		}
+		sort.Strings(opts)
+		o.f("def gbnOptions_mailbox : List String := %s\n", leanStrList(opts))
+	}
 
 	o.f("\nend Lnc.Facts\n")
 
